@@ -147,7 +147,36 @@ def gen_scale(rng):
     return {'mode': 'main', 'coros': coros, 'ops': ops}
 
 
+def gen_sleepers(rng):
+    """Many coroutines asleep at once, each for another time; some of them
+    are killed and started again before their time (a pending kill that is
+    cancelled takes the sleeper out of the wait queue): nobody else's
+    wake-up frame may move."""
+    nc = rng.randint(6, 16)
+    waits = rng.sample(range(2, 4 * nc), nc)
+    if rng.random() < 0.3:
+        waits = [w / 2 for w in waits]
+    coros = [{'script': [{'y': waits[k], 'acts': []}]
+              + [{'y': rng.choice([None, 1, 2]), 'acts': []}
+                 for _ in range(rng.randint(0, 2))],
+              'ret': k % len(RETS)} for k in range(nc)]
+    ops = [['start', k] for k in range(nc)]
+    ops.append(['process', rng.choice([0, 1])])
+    for _ in range(rng.randint(0, 2)):
+        ops.append(['process', 1])
+    for k in rng.sample(range(nc), rng.randint(1, 3)):
+        ops.append(['kill', k, rng.random() < 0.5])
+        if rng.random() < 0.3:
+            ops.append(['state', k])
+        ops.append(['start', k])
+    ops += [['process', rng.choice([1, 1, 1, 0.5, 2])]
+            for _ in range(4 * nc + 4)]
+    return {'mode': 'main', 'coros': coros, 'ops': ops}
+
+
 def gen_cases(tier, seed):
+    for i in range(400 if tier == 'quick' else 16 * 600):
+        yield gen_sleepers(random.Random(f'C09/sleepers/{seed}/{tier}/{i}'))
     # whole "game sessions" (vf/session.py): the features used together,
     # judged by the self-consistency invariants of this property
     for i in range(150 if tier == 'quick' else 16 * 300):
